@@ -122,6 +122,13 @@ pub mod logs;
 mod paths;
 mod state;
 
+/// Probes of private state for an external verification harness.
+#[cfg(feature = "zombiezen_redo_rs_verif")]
+pub mod verif {
+    pub use super::jobserver::verif_hooks as jobserver;
+    pub use super::state::verif_hooks as state;
+}
+
 pub use deps::{is_dirty, Dirtiness, DirtyCallbacks, DirtyCallbacksBuilder};
 pub use env::*;
 pub use error::{RedoError, RedoErrorKind};
